@@ -677,23 +677,20 @@ class InterpolatableFunction(ABC):
             return
 
         # what to append to lower end
-        if newMin < self._rangeMin and pointsMin > 0:
-
-            ## Point spacing to use at new lower end
-            spacing = np.abs(self._rangeMin - newMin) / pointsMin
-            # arange stops one spacing before the max value, which is what we want
-            appendPointsMin = np.arange(newMin, self._rangeMin, spacing)
+        tiny = 1e-10 * max(1.0, abs(self._rangeMin), abs(self._rangeMax))
+        if self._rangeMin - newMin > tiny and pointsMin > 0:
+            # pointsMin equally spaced points, the existing lower end excluded
+            appendPointsMin = np.linspace(
+                newMin, self._rangeMin, pointsMin, endpoint=False
+            )
         else:
             appendPointsMin = np.array([])
 
         # what to append to upper end
-        if newMax > self._rangeMax and pointsMax > 0:
-
-            ## Point spacing to use at new upper end
-            spacing = np.abs(newMax - self._rangeMax) / pointsMax
-            appendPointsMax = np.arange(
-                self._rangeMax + spacing, newMax + spacing, spacing
-            )
+        if newMax - self._rangeMax > tiny and pointsMax > 0:
+            # pointsMax equally spaced points ending at newMax, the existing upper end
+            # excluded
+            appendPointsMax = np.linspace(self._rangeMax, newMax, pointsMax + 1)[1:]
         else:
             appendPointsMax = np.array([])
 
